@@ -8,6 +8,8 @@ import Driver.NameMap
 import Driver.Utf8
 import Driver.Repair
 import Driver.Forwarder
+import Driver.MuxPool
+import Driver.ConnMap
 /-
 Model driver: reads the op lines a harness engine wrote (first line `engine <name>`), runs the
 executable Lean model, prints one observation line per op line.  `/verif/check` diffs this
@@ -28,6 +30,8 @@ inductive St where
   | utf8
   | repair
   | forwarder (d : Drv.Forwarder.DSt)
+  | muxpool (s : Drv.MuxPool.DSt)
+  | connmap (s : Option S2S.ConnMap.St)
 
 def initSt (engine : String) : Option St :=
   match engine with
@@ -42,6 +46,9 @@ def initSt (engine : String) : Option St :=
   | "utf8" => some .utf8
   | "repair" => some .repair
   | "forwarder" => some (.forwarder {})
+  | "muxpool" => some (.muxpool { d := S2S.MuxPool.Defects.fixed })
+  | "muxpool-asis" => some (.muxpool { d := S2S.MuxPool.Defects.asIs })
+  | "connmap" => some (.connmap Option.none)
   | _ => Option.none
 
 def stepSt (st : St) (line : String) : St × String :=
@@ -58,6 +65,8 @@ def stepSt (st : St) (line : String) : St × String :=
   | .utf8 => (.utf8, Drv.Utf8.step line)
   | .repair => (.repair, Drv.Repair.step line)
   | .forwarder d => let (d', o) := Drv.Forwarder.step d line; (.forwarder d', o)
+  | .muxpool s => let (s', o) := Drv.MuxPool.step s line; (.muxpool s', o)
+  | .connmap s => let (s', o) := Drv.ConnMap.step s line; (.connmap s', o)
 
 partial def loop (h : IO.FS.Stream) (out : IO.FS.Stream) (st : St) : IO Unit := do
   let line ← h.getLine
